@@ -504,6 +504,41 @@ def check_limit_writers(fx, rep, rule="R18.3", limit_field="value_size_limit"):
     rep.floor(rule, len(setters), 3, "builder-style setters of the VM configuration")
 
 
+def check_leaf_survives(fx, rep, rule):
+    """Not a clause of C18 (a culled leaf respects the limit) but of what is built on constants surviving: C06's literal keys."""
+    # a leaf (one node) survives the limit under every configuration that is accepted: either the limit has a floor of 1 where
+    # it is set, or the cull leaves values without children alone. With a limit of 0 every pushed constant is replaced by an
+    # opaque value - storage keys and jump targets included
+    floor = False
+    for b in fx.fn_bodies():
+        if not b.get("hir"):
+            continue
+        if b.get("impl_self") == "vm::Config" and "value_size_limit" in (b.get("name") or ""):
+            for n, _ in F.walk(b["hir"]["value"]):
+                if n.get("k") == "MethodCall" and n["method"] in ("max", "clamp") and n["args"]:
+                    a0 = T.term(n["args"][0], T.Env())
+                    if a0[0] == "lit" and str(a0[1]).isdigit() and int(a0[1]) >= 1:
+                        floor = True
+        if F.strip_generics(b["def"]).startswith("vm::value::SymbolicValue::") and any("limit" in (p_.get("name") or "") for p_ in b["hir"]["params"]):
+            for n, _ in F.walk(b["hir"]["value"]):
+                if n.get("k") == "Binary" and n["op"] in ("Gt", "Ne", "Ge") and "child_size" in str(T.term(n["l"], T.Env())):
+                    r_ = T.term(n["r"], T.Env())
+                    if r_ == ("lit", "0") or (n["op"] == "Ge" and r_ == ("lit", "1")):
+                        floor = True
+                if n.get("k") == "MethodCall" and n["method"] in ("max", "clamp") and "limit" in str(T.term(n["recv"], T.Env())) and n["args"]:
+                    a0 = T.term(n["args"][0], T.Env())
+                    if a0[0] == "lit" and str(a0[1]).isdigit() and int(a0[1]) >= 1:
+                        floor = True
+    rep.oblige(
+        floor,
+        rule,
+        "leaf-survives",
+        "-",
+        "nothing keeps a single-node value from being culled: with a value size limit of 0 (accepted as it is) every constant a PUSH produces is replaced by an opaque value, so constant storage keys and jump targets are lost",
+        sample={"rule": rule, "limit_floor_or_leaf_exemption": floor},
+    )
+
+
 def check_r184(fx, rep):
     """In the limit-taking constructor: the comparison is `child_size(data)+1 > limit` and the substitute is a leaf."""
     found = 0
